@@ -241,6 +241,10 @@ func (w *Worker) RunPath(name string, item WorkItem, concrete map[string]uint64)
 	if st == "violation-stop" {
 		st = "ok"
 	}
+	if st == "budget" && ps.budgetOK {
+		st = "ok"
+		res.Reached["step-budget-exhausted(accepted)"] = true
+	}
 	if st == "ok" && ps.pos < len(ps.prefix) {
 		st, msg = "engine", fmt.Sprintf("replay divergence: path ended after %d of %d prefix decisions", ps.pos, len(ps.prefix))
 	}
